@@ -300,6 +300,10 @@ def classify_write(prog, f, n, R, toupper_ok):
     import codec as _codec
     ga = _codec.Extractor(prog, 'w').gather_analysis(f, R, n, None, 0)
     if ga is not None:
+        if ga['verdict'] == 'copy-exact':
+            return 'ok', 'gathered', 'local buffer `%s` is an unmodified copy of %s elements; %s' % (ga['local'], ga.get('count'), ga['why'])
+        if ga['verdict'] == 'mismatch' and ga.get('copy_of'):
+            return 'undecided', 'gathered', 'local buffer `%s`: %s (whether they stay inside the buffer is not decided here)' % (ga['local'], ga['why'])
         if ga['verdict'] == 'exact':
             return 'ok', 'gathered', 'local buffer `%s` filled by appends; %s' % (ga['local'], ga['why'])
         if ga['verdict'] == 'mismatch':
